@@ -668,7 +668,17 @@ func needleDeny(r *Rng, o *Out, d *Dyn, top bool, depth int) (macaroon.Caveat, s
 		mv := auth.MaxValidity(1<<63 - 1)
 		return &mv, "maxValidity"
 	case 9:
-		switch r.Intn(4) {
+		switch r.Intn(5) {
+		case 4:
+			// prefix-typed sets: EVERY listed prefix of the object narrows the grant, also when the object itself is
+			// listed with everything allowed (a lookup of the exact entry that skips the scan clears this)
+			if id := string(*d.Storage); len(id) > 1 {
+				return &flyio.StorageObjects{Prefixes: resset.ResourceSet[resset.Prefix, resset.Action]{
+					resset.Prefix(id):                       0xffff,
+					resset.Prefix(id[:1+r.Intn(len(id)-1)]): d.Action &^ lowBit,
+				}}, "set.prefix.covering-entry-narrower"
+			}
+			return &flyio.StorageObjects{Prefixes: resset.ResourceSet[resset.Prefix, resset.Action]{}}, "set.empty"
 		case 0:
 			return &flyio.Volumes{Volumes: resset.ResourceSet[string, resset.Action]{}}, "set.empty"
 		case 1:
